@@ -415,6 +415,23 @@ fn fam_random_bits<const N: usize>(ctx: &Ctx) {
                 Ok(Err(RandomBitsError::BitsPrecisionMismatch { .. })) => l.class("BitsPrecisionMismatch"),
                 other => fail(l, fam, "Uint::try_random_bits_with_precision", "precision_mismatch", &wname, vec![format!("bit_length={bl}"), format!("precision={prec}")], "Err(BitsPrecisionMismatch)".into(), format!("{other:?}"), other.is_err()),
             }
+            // the signed type must behave exactly like the unsigned one of the same width
+            l.form("Int::try_random_bits_with_precision");
+            match guard(|| Int::<N>::try_random_bits_with_precision(&mut ScriptRng::from_bytes(&[0xff; 64]), bl.min(bits_), prec)) {
+                Ok(Err(RandomBitsError::BitsPrecisionMismatch { .. })) => l.class("BitsPrecisionMismatch"),
+                other => fail(l, fam, "Int::try_random_bits_with_precision", "precision_mismatch", &wname, vec![format!("bit_length={bl}"), format!("precision={prec}")], "Err(BitsPrecisionMismatch)".into(), format!("{other:?}"), other.is_err()),
+            }
+        }
+        // matching precision: Uint and Int agree in value and stream position
+        {
+            let st = vec![0xa7u8; 8 * N + 16];
+            let (mut r1, mut r2) = (ScriptRng::from_bytes(&st), ScriptRng::from_bytes(&st));
+            let a = guard(|| Uint::<N>::try_random_bits_with_precision(&mut r1, bl.min(bits_), bits_).map(|x| w(&x)).map_err(|_| ()));
+            let b = guard(|| Int::<N>::try_random_bits_with_precision(&mut r2, bl.min(bits_), bits_).map(|x| w(x.as_uint())).map_err(|_| ()));
+            l.form("Int::try_random_bits_with_precision");
+            if a != b || r1.pos != r2.pos || !matches!(a, Ok(Ok(_))) {
+                fail(l, fam, "Int~Uint::try_random_bits_with_precision", "matching_precision", &wname, vec![format!("bit_length={}", bl.min(bits_))], format!("{a:?} @ {}", r1.pos), format!("{b:?} @ {}", r2.pos), a.is_err() || b.is_err());
+            }
         }
     });
     // counting argument for random_bits with bit_length <= 12: all 2^16 values of the low two bytes x high patterns
@@ -511,6 +528,35 @@ fn fam_random<const N: usize>(ctx: &Ctx) {
             match guard(|| Odd::<BoxedUint>::random(&mut ScriptRng::from_words(&long), bl)) {
                 Ok(v) if bw(v.as_ref())[0] & 1 == 1 && to_big(&bw(v.as_ref())) < pow2(bl as usize) => {}
                 other => fail(l, fam, "Odd::<Boxed>::random", "invariant", &wname, vec![inputs[0].clone(), format!("bit_length={bl}")], format!("odd and < 2^{bl}"), format!("{other:?}"), other.is_err()),
+            }
+        }
+    });
+    // rejection of zero candidates: z consecutive all-zero candidates (z = 0..=3) must all be skipped
+    ctx.seq(fam, &format!("{wname} NonZero after z zero candidates"), |l| {
+        for z in 0..=3usize {
+            for first in [7u64, 1, MAX] {
+                l.cases += 1;
+                l.nontrivial += (z > 0) as u64;
+                let mut words = vec![0u64; z * N];
+                let mut cand = vec![0u64; N];
+                cand[N - 1] = first;
+                words.extend(&cand);
+                words.extend(vec![0x2222_2222_2222_2222u64; N]);
+                let inputs = vec![format!("zero candidates={z}"), format!("next candidate={}", hex(&cand))];
+                let mut r = ScriptRng::from_words(&words);
+                l.form("NonZero<Uint>::try_random");
+                match guard(|| NonZero::<Uint<N>>::try_random(&mut r)) {
+                    Ok(Ok(v)) if w(v.as_ref()) == cand && r.pos == 8 * N * (z + 1) => {}
+                    other => fail(l, fam, "NonZero<Uint>::try_random", "zero_candidates", &wname, inputs.clone(), format!("{} after {} bytes", hex(&cand), 8 * N * (z + 1)), format!("{:?} pos={}", other.as_ref().map(|r| r.as_ref().map(|v| hex(&w(v.as_ref()))).map_err(|_| "exhausted")), r.pos), other.is_err()),
+                }
+                if N == 1 {
+                    let mut r = ScriptRng::from_words(&words);
+                    l.form("NonZero<Limb>::try_random");
+                    match guard(|| NonZero::<Limb>::try_random(&mut r)) {
+                        Ok(Ok(v)) if v.as_ref().0 == first && r.pos == 8 * (z + 1) => {}
+                        other => fail(l, fam, "NonZero<Limb>::try_random", "zero_candidates", &wname, inputs.clone(), format!("{first:#x} after {} bytes", 8 * (z + 1)), format!("{:?} pos={}", other.as_ref().map(|r| r.as_ref().map(|v| v.as_ref().0).map_err(|_| "exhausted")), r.pos), other.is_err()),
+                    }
+                }
             }
         }
     });
